@@ -1,5 +1,5 @@
 /- Driver ops for C01 (slim/native). -/
-import Driver.Json
+import Driver.Loop
 import Model.Slim
 
 open Lean Model
@@ -91,3 +91,5 @@ def ops : List (String × Op) :=
    ("c01.grid_convert", gridConvert), ("c01.array1d", array1d)]
 
 end Driver.C01
+
+def main : IO Unit := Driver.runLoop Driver.C01.ops
